@@ -55,6 +55,14 @@ def corpus():
         # NotLeader, then the retry
         H([{"op": "meta", "topics": [], "plan": {"metas": [m1]}},
            send([[0, 0], [1, 0]], errs={"0:0": 6}, meta_default=m1), send([[0, 0], [1, 0]], meta_by_topic={"0": m2}, meta_default=m1)]),
+        # broker 2 re-addressed to the SAME host, another port, while it has a client object; connection lost; request
+        H([{"op": "meta", "topics": [], "plan": {"metas": [m1]}}, send([[0, 1], [1, 0]]),
+           {"op": "meta", "topics": [1], "plan": {"metas": [_meta([[2, 102, 9093]], [[0, 1, [[0, 0, 2]]]])]}},
+           {"op": "drop", "node": 2}, send([[0, 1], [1, 0]], live_addrs=[[101, 9092], [102, 9093]])]),
+        # the same with the port kept and the host changed
+        H([{"op": "meta", "topics": [], "plan": {"metas": [m1]}}, send([[0, 1], [1, 0]]),
+           {"op": "meta", "topics": [], "plan": {"metas": [_meta([[1, 101, 9092], [2, 112, 9092]], [[0, 1, [[0, 0, 2]]]])]}},
+           {"op": "drop", "node": 2}, send([[0, 1], [1, 0]], live_addrs=[[101, 9092], [112, 9092]])]),
         # failed send (silent broker) empties the cache; the retry reloads everything
         H([{"op": "meta", "topics": [], "plan": {"metas": [m1]}},
            send([[0, 0], [0, 1]], bad={"2": "silent"}, meta_default=m1), send([[0, 0], [0, 1]], meta_default=m1, **world)]),
@@ -65,7 +73,7 @@ def corpus():
 def enum_small():
     """every sequence of two metadata responses over a tiny alphabet (brokers 1,2 at two addresses, topic 0 with up
     to two partitions led by -1/1/2, an erroring topic, partial and full refreshes), a request in between"""
-    brokers = [[], [[1, 101, 9092]], [[1, 111, 9092], [2, 102, 9092]], [[2, 102, 9092]]]
+    brokers = [[], [[1, 101, 9092]], [[1, 101, 9093], [2, 102, 9092]], [[2, 102, 9092]]]
     parts = [[], [[0, 0, 1]], [[0, 0, 2], [0, 1, -1]], [[0, 1, 1], [0, 0, 2]]]
     resps = []
     for b, p, terr, full in itertools.product(brokers, parts, [0, 5], [False, True]):
